@@ -193,6 +193,12 @@ def from_vector_rules(chk, repo, rid):
     # trailing scalar absorbed
     tail = [s for s in fi.node.body if isinstance(s, ast.AugAssign) and norm(s.target) == f'{M}.A[-1]']
     ok = len(tail) == 1 and isinstance(tail[0].op, ast.Mult) and norm(tail[0].value) in (f'{V}[0, 0]', f'{X}[0, 0]')
+    if not tail:
+        # the product written out: M.A[-1] = M.A[-1] * v[0, 0] (either operand order)
+        tail = [s for s in fi.node.body if isinstance(s, ast.Assign) and norm(s.targets[0]) == f'{M}.A[-1]' and
+                isinstance(s.value, ast.BinOp) and isinstance(s.value.op, ast.Mult)]
+        ok = len(tail) == 1 and sorted([norm(tail[0].value.left), norm(tail[0].value.right)]) in \
+            (sorted([f'{M}.A[-1]', f'{V}[0, 0]']), sorted([f'{M}.A[-1]', f'{X}[0, 0]']))
     chk.ob(rid, where(repo, fi, tail[0] if tail else fi.node), 'from_vector: the remaining 1x1 factor is absorbed into the '
            'last tensor', ok, norm(tail[0]) if tail else '', key=f'{rid}|from_vector|tail')
     return n + 6
